@@ -767,6 +767,10 @@ func typeNeedsElem(typ string, settings GenerateSettings) bool {
 	if _, ok := primitiveTypes[typ]; ok {
 		return false
 	}
+	if alias, ok := settings.importTypeAliases[typ]; ok {
+		// imported records are registered under their namespaced name
+		typ = alias
+	}
 	_, ok := settings.customRecordTypes[typ]
 	return ok
 }
